@@ -211,6 +211,85 @@ func accumulatingLoop(fn *ssa.Function, call *ssa.Call) (bool, string) {
 			return false, ""
 		}
 	}
+	// io.EOF may arrive together with the last bytes: before the end of input is turned
+	// into an error of the function's own making (io.ErrUnexpectedEOF, a parse error),
+	// the accumulated count must have been compared with the target of the loop
+	if vals := errValuesOfCall(call); vals != nil {
+		eofTrue := testEdges(fn, eofTestsOn(fn, vals, "io", "EOF"), true)
+		if len(eofTrue) > 0 {
+			// the target: what the loop condition compares the accumulator with
+			targets := map[ssa.Value]bool{}
+			accLike := map[ssa.Value]bool{acc: true}
+			for v := range forward([]ssa.Value{acc}, fwdOpts{noBinOp: true}) {
+				accLike[v] = true
+			}
+			var cmpEdges []edge
+			for _, b := range fn.Blocks {
+				if len(b.Instrs) == 0 {
+					continue
+				}
+				ifi, ok := b.Instrs[len(b.Instrs)-1].(*ssa.If)
+				if !ok {
+					continue
+				}
+				bo, ok := ifi.Cond.(*ssa.BinOp)
+				if !ok {
+					continue
+				}
+				for _, pair := range [][2]ssa.Value{{bo.X, bo.Y}, {bo.Y, bo.X}} {
+					if accLike[stripConv(pair[0])] || accLike[pair[0]] {
+						if _, isConst := constInt(pair[1]); !isConst {
+							if inLoop(b) {
+								targets[stripConv(pair[1])] = true
+							}
+						}
+					}
+				}
+			}
+			for _, b := range fn.Blocks {
+				if len(b.Instrs) == 0 {
+					continue
+				}
+				ifi, ok := b.Instrs[len(b.Instrs)-1].(*ssa.If)
+				if !ok {
+					continue
+				}
+				bo, ok := ifi.Cond.(*ssa.BinOp)
+				if !ok {
+					continue
+				}
+				for _, pair := range [][2]ssa.Value{{bo.X, bo.Y}, {bo.Y, bo.X}} {
+					if (accLike[stripConv(pair[0])] || accLike[pair[0]]) && targets[stripConv(pair[1])] {
+						cmpEdges = append(cmpEdges, edge{b, 0}, edge{b, 1})
+					}
+				}
+			}
+			for _, e := range eofTrue {
+				from := e.from.Succs[e.succ]
+				if len(from.Instrs) == 0 {
+					continue
+				}
+				for _, ret := range returnsOf(fn) {
+					if ei < 0 {
+						continue
+					}
+					v := retVal(ret, ei)
+					if v == nil || isNilConst(v) || vals[v] {
+						continue // success, or the reader's own error handed on
+					}
+					if isGlobalNamed(v, "io", "EOF") {
+						continue
+					}
+					if ret.Block() != from {
+						if _, reach := reachAfter(fn, from.Instrs[0], ret, mkCut(cmpEdges), nil); !reach {
+							continue
+						}
+					}
+					return false, "turns an io.EOF of the reader into an error of its own without first comparing the bytes accumulated so far with the number wanted: a transport that delivers the last bytes together with io.EOF makes a complete field look truncated"
+				}
+			}
+		}
+	}
 	// no exit from the loop may depend on a plain iteration counter: the number of Read
 	// calls needed is the transport's choice, not the decoder's
 	header := loopHeaderOf(call.Block())
